@@ -361,3 +361,44 @@ def run(facts, cg=None):
                 if 'truncate' in eff and any(k.endswith('seed_output') for k in fl):
                     finding(b.q, 'truncate-clone:' + str(ch['path']), 'clone output %s opened with truncate' % ch['path'])
     return instances, findings
+
+
+# ------------------------------------------------------------------------------------------------------------------------
+# R-CLIFLAGS: the flags that decide whether an existing output may be touched come from their command line flag and from
+# nothing else.  `seed_output = get_flag("seed-output") || <output is among the seeds>` lifts the exists-refusal without -f.
+CLI_FLAGS = {'force_create': 'force-create', 'seed_output': 'seed-output', 'verify_output': 'verify-output'}
+
+
+def run_cliflags(facts, cg):
+    from ..terms import Terms, simplify, show, walk
+    T = Terms(facts)
+    instances, findings = [], []
+    n = 0
+    for b in facts.bodies.values():
+        if b.crate != 'bita' or b.generated:
+            continue
+        for bi in b.live:
+            for st in b.blocks[bi]['stmts']:
+                if not (st['k'] == 'assign' and st['rv']['k'] == 'agg' and (st['rv'].get('adt') or '').endswith('::Options')
+                        and st['rv']['adt'].startswith(('bita::clone_cmd::', 'bita::compress_cmd::'))):
+                    continue
+                for name, o in zip(st['rv']['fields'], st['rv']['ops']):
+                    if name not in CLI_FLAGS:
+                        continue
+                    n += 1
+                    term = simplify(T.of_operand(b, o))
+                    flags = []
+                    other = []
+                    for nd in walk(term):
+                        if nd[0] == 'call' and nd[1].endswith('ArgMatches::get_flag'):
+                            flags += [a[1] for a in nd[2] if isinstance(a, tuple) and a[0] == 'const' and isinstance(a[1], str)]
+                    top = term
+                    ok = isinstance(top, tuple) and top[0] == 'call' and top[1].endswith('ArgMatches::get_flag') and any(CLI_FLAGS[name] in str(f_) for f_ in flags)
+                    instances.append({'rule': 'R-CLIFLAGS', 'function': b.q, 'option': st['rv']['adt'].split('::')[1] + '.' + name, 'at': st['loc'], 'term': show(term)[:60], 'ok': ok})
+                    if not ok:
+                        findings.append({'rule': 'R-CLIFLAGS', 'key': 'R-CLIFLAGS|%s|%s.%s' % (b.q, st['rv']['adt'].split('::')[1], name), 'function': b.q,
+                                         'what': 'option %s is not simply the command line flag --%s (%s): the refusal to touch an existing output can be lifted '
+                                                 'without the user asking for it' % (name, CLI_FLAGS[name], show(term)[:100])})
+    if n < 3:
+        findings.append({'rule': 'R-CLIFLAGS', 'key': 'R-CLIFLAGS|-|floor', 'function': '-', 'what': 'the option structs of clone / compress were not found in the argument parser (cannot decide)'})
+    return instances, findings
